@@ -13,14 +13,29 @@ VALUE_KINDS = ("pauli", "mono", "list", "poly", "map", "state")
 ALL_KINDS = VALUE_KINDS + ("gate", "layer", "circuit")
 
 
+def _npv(a):
+    """numpy view sharing storage with a (CPU) tensor; ndarrays pass through."""
+    if hasattr(a, "detach"):
+        return a.detach().numpy()
+    return a
+
+
 def _arr(a):
-    a = np.asarray(a)
+    a = np.asarray(_npv(a))
     return (a.tobytes(), a.shape, str(a.dtype))
 
 
 def _arr_mod4(a):
-    a = np.asarray(a)
+    a = np.asarray(_npv(a))
     return (np.mod(a, 4).astype(np.int64).tobytes(), a.shape)
+
+
+def _sN(o):
+    """qubit number of a value object, -1 if it cannot be told (degenerate shapes)."""
+    try:
+        return _sN(o)
+    except Exception:
+        return -1
 
 
 class Slot:
@@ -86,7 +101,7 @@ def snap_circuit(c):
             break
         bw.append(l)
     # the backward walk is part of the value: backward()/povm()/repr() use it
-    return ("circuit", int(c.N), tuple(snap_layer(l) for l in fw),
+    return ("circuit", _sN(c), tuple(snap_layer(l) for l in fw),
             _map_val(c.forward_map), _map_val(c.backward_map), tuple(snap_layer(l) for l in bw))
 
 
@@ -193,9 +208,11 @@ def subobjects(o, kind):
 
 def shares(a, ka, b, kb):
     for x in arrays_of(a, ka):
+        x = _npv(x)
         if not isinstance(x, np.ndarray):
             continue
         for y in arrays_of(b, kb):
+            y = _npv(y)
             if isinstance(y, np.ndarray) and np.shares_memory(x, y):
                 return True
     ia = set(id(x) for x in subobjects(a, ka))
@@ -203,25 +220,22 @@ def shares(a, ka, b, kb):
 
 
 def kind_of(pc, o):
-    circ = pc.circuit
-    if isinstance(o, pc.StabilizerState):
-        return "state"
-    if isinstance(o, pc.CliffordMap):
-        return "map"
-    if isinstance(o, pc.PauliPolynomial):
-        return "poly"
-    if isinstance(o, pc.PauliList):
-        return "list"
-    if isinstance(o, pc.PauliMonomial):
-        return "mono"
-    if isinstance(o, pc.Pauli):
-        return "pauli"
-    if isinstance(o, pc.CliffordGate):
-        return "gate"
-    if isinstance(o, pc.CliffordLayer):
-        return "layer"
-    if isinstance(o, circ.CliffordCircuit):
-        return "circuit"
+    def cls(name):
+        try:
+            return getattr(pc, name)
+        except AttributeError:
+            return ()
+    for name, kind in (("StabilizerState", "state"), ("CliffordMap", "map"), ("PauliPolynomial", "poly"),
+                       ("PauliList", "list"), ("PauliMonomial", "mono"), ("Pauli", "pauli"),
+                       ("CliffordGate", "gate"), ("CliffordLayer", "layer")):
+        c = cls(name)
+        if c and isinstance(o, c):
+            return kind
+    try:
+        if isinstance(o, pc.circuit.CliffordCircuit):
+            return "circuit"
+    except AttributeError:
+        pass
     return None
 
 
@@ -231,7 +245,9 @@ class ObjWorld(Run):
 
     def __init__(self, cfg):
         super().__init__(cfg)
-        self.pc = sut.load()
+        self.S = sut.backend(cfg.get("backend", "numpy"))
+        self.pc = self.S.mod
+        self.torch = self.S.name == "torch"
         self.n = cfg["n"]
         self.slots = {}
         self.next_root = 0
@@ -245,7 +261,7 @@ class ObjWorld(Run):
     def _N(self, s):
         o = s.obj
         if s.kind in VALUE_KINDS:
-            return int(o.N)
+            return _sN(o)
         if s.kind == "gate":
             return None
         return None
@@ -315,7 +331,9 @@ class ObjWorld(Run):
     def _p_new(self, rng):
         n = self.n
         kind = rng.choice(["pauli", "pauli", "list", "list", "mono", "poly", "map", "state", "state",
-                           "gate", "gate", "layer", "circuit", "smallmap", "smallpauli"])
+                           "gate", "gate", "layer", "circuit", "smallmap", "smallpauli"] if not self.torch else
+                          ["pauli", "pauli", "list", "list", "map", "state", "state", "state", "gate", "circuit",
+                           "smallmap", "smallpauli"])
         op = {"op": "new", "slot": self.free_name(rng), "kind": kind, "entropy": new_entropy(rng)}
         if kind == "pauli":
             op["item"] = self._lit_pauli(rng, n, herm=rng.random() < 0.6)
@@ -345,7 +363,8 @@ class ObjWorld(Run):
             op["kind"] = "map"
             op["images"] = sut.strs(rm.rand_clifford_images(rng, rng.randrange(1, n)))
         elif kind == "state":
-            c = rng.choice(["stab", "stab", "zero", "one", "ghz", "mixed", "rbs", "rcs"])
+            c = rng.choice(["stab", "stab", "zero", "one", "ghz", "mixed", "rbs", "rcs"] if not self.torch else
+                           ["stab", "stab", "zero", "ghz", "mixed", "rcs", "rcs"])
             op["ctor"] = c
             if c == "stab":
                 op["gens"] = sut.strs(rm.rand_commuting_independent(rng, n, rng.randrange(1, n + 1)))
@@ -365,7 +384,8 @@ class ObjWorld(Run):
         n = self.n
         m = rng.randrange(1, min(n, 3) + 1)
         qubits = sorted(rng.sample(range(n), m))
-        kind = rng.choice(["gen", "fmap", "bmap", "fbmap", "named"] + (["random"] if allow_random else []))
+        kind = rng.choice(["gen", "fmap", "bmap", "fbmap"] + ([] if self.torch else ["named"]) +
+                          (["random"] if allow_random else []))
         spec = {"kind": kind, "qubits": qubits}
         if kind == "gen":
             spec["G"] = rm.pstr(rm.rand_hermitian(rng, m))
@@ -597,16 +617,16 @@ class ObjWorld(Run):
             if len(G[0]) != m:
                 raise Skip()
             gate = pc.CliffordGate(*q)
-            gate.set_generator(sut.mk_pauli(G))
+            gate.set_generator(self.S.mk_pauli(G))
         elif kind in ("fmap", "bmap", "fbmap"):
             w = sut.parse_list(spec["word"])
             if any(len(g[0]) != m for g in w):
                 raise Skip()
             gate = pc.CliffordGate(*q)
             if kind in ("fmap", "fbmap"):
-                gate.set_forward_map(sut.mk_map(word_images(m, w)))
+                gate.set_forward_map(self.S.mk_map(word_images(m, w)))
             if kind in ("bmap", "fbmap"):
-                gate.set_backward_map(sut.mk_map(word_images(m, inverse_word(w))))
+                gate.set_backward_map(self.S.mk_map(word_images(m, inverse_word(w))))
         elif kind == "named":
             gate = getattr(pc, spec["name"])(*q)
         else:
@@ -621,26 +641,26 @@ class ObjWorld(Run):
         seams.prepare_call(op)
         try:
             if kind == "pauli":
-                o = sut.mk_pauli(rm.pparse(op["item"]))
+                o = self.S.mk_pauli(rm.pparse(op["item"]))
             elif kind == "mono":
                 r = rm.pparse(op["item"])
                 o = pc.PauliMonomial(sut.g_of(r[0]), int(r[1])).set_c(complex(*op["c"]))
             elif kind == "list":
-                o = sut.mk_list(sut.parse_list(op["items"]))
+                o = self.S.mk_list(sut.parse_list(op["items"]))
             elif kind == "poly":
                 rs = sut.parse_list(op["items"])
                 gs = np.stack([sut.g_of(r[0]) for r in rs])
                 o = pc.PauliPolynomial(gs, np.array([r[1] for r in rs], dtype=np.int_))
                 o.set_cs(np.array([complex(*c) for c in op["cs"]], dtype=np.complex128))
             elif kind == "map":
-                o = sut.mk_map(sut.parse_list(op["images"]))
+                o = self.S.mk_map(sut.parse_list(op["images"]))
             elif kind == "state":
                 c = op["ctor"]
                 if c == "stab":
                     gens = sut.parse_list(op["gens"])
                     if any(len(g[0]) != n for g in gens):
                         raise Skip()
-                    o = pc.stabilizer_state(sut.mk_list(gens))
+                    o = pc.stabilizer_state(self.S.mk_list(gens))
                 elif c == "zero":
                     o = pc.zero_state(n)
                 elif c == "one":
@@ -713,7 +733,7 @@ class ObjWorld(Run):
         s = self.slots[op["slot"]]
         pre = self.snapshot_all()
         h = op["how"]
-        arrs = [a for a in arrays_of(s.obj, s.kind) if isinstance(a, np.ndarray) and a.size > 0]
+        arrs = [a for a in (_npv(x) for x in arrays_of(s.obj, s.kind)) if isinstance(a, np.ndarray) and a.size > 0]
         done = None
         if s.kind in ("pauli", "mono") and h % 3 == 0:
             s.obj.p = (int(s.obj.p) + 1 + h % 3) % 4
@@ -758,10 +778,10 @@ class ObjWorld(Run):
             a = self.slots[op["arg"]]
             arg = a.obj
             inputs.append(op["arg"])
-            if s.kind in VALUE_KINDS and a.kind in VALUE_KINDS and int(arg.N) != int(o.N):
+            if s.kind in VALUE_KINDS and a.kind in VALUE_KINDS and _sN(arg) != _sN(o):
                 raise Skip()
         if s.kind in VALUE_KINDS and q in ("expect_pauli", "expect_list", "expect_poly", "expect_state", "entropy",
-                                           "get_prob", "sample", "density_matrix", "diagonalize") and int(o.N) != n:
+                                           "get_prob", "sample", "density_matrix", "diagonalize") and _sN(o) != n:
             raise Skip()
         pre = self.snapshot_all()
         seams.prepare_call(op)
@@ -825,7 +845,7 @@ class ObjWorld(Run):
                         raise Skip()
                     res = pc.diagonalize(o)
             elif q == "to_qutip":
-                if int(o.N) > 3:
+                if _sN(o) > 3:
                     raise Skip()
                 o.to_qutip()
             elif q in ("get_int", "get_slice", "get_idx", "get_mask"):
@@ -873,7 +893,7 @@ class ObjWorld(Run):
             elif q == "sample":
                 res = o.sample(op["L"])
             elif q == "get_prob":
-                o.get_prob(np.array(op["bits"]) * 2)
+                o.get_prob(self.S.arr([2 * b for b in op["bits"]], "p"))
             elif q == "density_matrix":
                 res = o.density_matrix
             elif q == "independent_from":
@@ -920,45 +940,45 @@ class ObjWorld(Run):
         seams.prepare_call(op)
 
         def mask_of(q):
-            return None if q is None else sut.mk_mask(q, n)
+            return None if q is None else self.S.mk_mask(q, n)
         try:
             if which == "rotate":
-                if recv.kind not in VALUE_KINDS or arg.kind != "pauli" or int(recv.obj.N) != n:
+                if recv.kind not in VALUE_KINDS or arg.kind != "pauli" or _sN(recv.obj) != n:
                     raise Skip()
                 q = op.get("qubits")
-                gN = int(arg.obj.N)
+                gN = _sN(arg.obj)
                 if (q is None and gN != n) or (q is not None and (len(q) != gN or max(q) >= n)):
                     raise Skip()
                 recv.obj.rotate_by(arg.obj, mask_of(q)) if q is not None else recv.obj.rotate_by(arg.obj)
             elif which == "transform":
-                if recv.kind not in VALUE_KINDS or arg.kind != "map" or int(recv.obj.N) != n:
+                if recv.kind not in VALUE_KINDS or arg.kind != "map" or _sN(recv.obj) != n:
                     raise Skip()
                 q = op.get("qubits")
-                mN = int(arg.obj.N)
+                mN = _sN(arg.obj)
                 if int(arg.obj.gs.shape[0]) != 2 * mN:
                     raise Skip()
                 if (q is None and mN != n) or (q is not None and (len(q) != mN or max(q) >= n)):
                     raise Skip()
                 recv.obj.transform_by(arg.obj, mask_of(q)) if q is not None else recv.obj.transform_by(arg.obj)
             elif which == "measure":
-                if recv.kind != "state" or arg.kind not in ("list", "state", "map") or int(arg.obj.N) != n \
-                        or int(recv.obj.N) != n or arg is recv:
+                if recv.kind != "state" or arg.kind not in ("list", "state", "map") or _sN(arg.obj) != n \
+                        or _sN(recv.obj) != n or arg is recv:
                     raise Skip()
                 if not _valid_r(recv.obj, n):
                     raise Skip()
                 recv.obj.measure(arg.obj)
             elif which == "postselect":
-                if recv.kind != "state" or arg.kind != "pauli" or int(arg.obj.N) != n or int(recv.obj.N) != n:
+                if recv.kind != "state" or arg.kind != "pauli" or _sN(arg.obj) != n or _sN(recv.obj) != n:
                     raise Skip()
                 recv.obj.postselect(arg.obj, op["b"])
             elif which == "embed":
                 q = op["qubits"]
-                if recv.kind != "map" or arg.kind != "map" or int(recv.obj.N) != n or len(q) != int(arg.obj.N) \
+                if recv.kind != "map" or arg.kind != "map" or _sN(recv.obj) != n or len(q) != _sN(arg.obj) \
                         or max(q) >= n or int(arg.obj.gs.shape[0]) != 2 * len(q) or int(recv.obj.gs.shape[0]) != 2 * n:
                     raise Skip()
-                recv.obj.embed(arg.obj, sut.mk_mask(q, n))
+                recv.obj.embed(arg.obj, self.S.mk_mask(q, n))
             elif which in ("gate_apply", "layer_apply", "circuit_apply"):
-                if unit.kind != which.split("_")[0] or recv.kind not in VALUE_KINDS or int(recv.obj.N) != n:
+                if unit.kind != which.split("_")[0] or recv.kind not in VALUE_KINDS or _sN(recv.obj) != n:
                     raise Skip()
                 if recv.kind == "mono":
                     raise Skip()
@@ -987,11 +1007,11 @@ class ObjWorld(Run):
                     raise Skip()
                 what = op["what"]
                 if what == "generator":
-                    if arg.kind != "pauli" or int(arg.obj.N) != recv.obj.n:
+                    if arg.kind != "pauli" or _sN(arg.obj) != recv.obj.n:
                         raise Skip()
                     recv.obj.set_generator(arg.obj)
                 else:
-                    if arg.kind != "map" or int(arg.obj.N) != recv.obj.n:
+                    if arg.kind != "map" or _sN(arg.obj) != recv.obj.n:
                         raise Skip()
                     (recv.obj.set_forward_map if what == "forward" else recv.obj.set_backward_map)(arg.obj)
                 extend_from.append(arg)
